@@ -333,6 +333,9 @@ impl<'tcx> Cx<'tcx> {
                     if let Res::Def(DefKind::Fn | DefKind::AssocFn, did) = res {
                         let ga = tr.node_args(f.hir_id);
                         v.push(("callee", s(def_path(tcx, did))));
+                        if !did.is_local() {
+                            v.push(("pnames", foreign_param_names(tcx, did)));
+                        }
                         if let Some(r) = self.resolve(did, ga) {
                             v.push(("inst", s(r)));
                         }
@@ -346,6 +349,9 @@ impl<'tcx> Cx<'tcx> {
                 v.push(("method", s(seg.ident.name.to_string())));
                 if let Some(did) = tr.type_dependent_def_id(e.hir_id) {
                     v.push(("callee", s(def_path(tcx, did))));
+                    if !did.is_local() {
+                        v.push(("pnames", foreign_param_names(tcx, did)));
+                    }
                     let ga = tr.node_args(e.hir_id);
                     if let Some(r) = self.resolve(did, ga) {
                         v.push(("inst", s(r)));
@@ -551,4 +557,12 @@ impl<'tcx> Cx<'tcx> {
         }
         J::Obj(v)
     }
+}
+
+/// names of the parameters of a function defined in another crate (from its metadata); "" for `_`/pattern parameters
+fn foreign_param_names(tcx: TyCtxt<'_>, did: DefId) -> J {
+    arr(tcx
+        .fn_arg_idents(did)
+        .iter()
+        .map(|i| s(i.map(|i| i.name.to_string()).unwrap_or_default())))
 }
